@@ -358,7 +358,8 @@ func (gr *WordIterator) Next() bool {
 		}
 
 		if gr.inWord { // we are have reached the END of a word
-			gr.inWord = false
+			// the next word may start right here ("日本語")
+			gr.inWord = gr.pos < len(gr.src.text) && unicode.Is(ucd.Word, gr.src.text[gr.pos])
 			return true
 		}
 
